@@ -143,6 +143,9 @@ impl<'a> Prog<'a> {
     fn replay_text(&self) -> String {
         self.lines.join("\n")
     }
+    pub fn oracle_fail_pub(&mut self, prop: &str, sig: &str, what: String) {
+        self.oracle_fail(prop, sig, what)
+    }
     fn oracle_fail(&mut self, prop: &str, sig: &str, what: String) {
         let r = self.replay_text();
         let label = self.label.clone();
@@ -694,6 +697,19 @@ pub fn drive_from_to(p: &mut Prog, rng: &mut Rng, frame: &[u8]) {
             break;
         }
     }
+    // a complete valid frame, offered in full (the driver widens what it offers whenever a call makes no progress):
+    // the slice-to-slice call must get to the end of it
+    let complete = p.truth.as_ref().map(|t| t.complete).unwrap_or(false);
+    if complete && !p.is_failed() && !p.lenient_truth {
+        p.run.oracle_checks += 1;
+        // (`stall` counts consecutive calls without progress although the whole rest of the frame was on offer; the loop's
+        // iteration guard ending a frame of thousands of tiny blocks early is not a failure)
+        if !p.finished() && stall > 60 {
+            let (consumed, total) = (pos, frame.len());
+            p.oracle_fail_pub("C06", "decode_from_to_does_not_finish", format!("decode_from_to never finishes a complete valid frame: stuck after consuming {} of {} source bytes ({} bytes delivered)", consumed, total, p.delivered.len()));
+            p.oracle_fail_pub("C01", "rejects_valid_frame", format!("decode_from_to never finishes a complete valid frame: stuck after consuming {} of {} source bytes", consumed, total));
+        }
+    }
 }
 
 pub struct Case {
@@ -1119,6 +1135,15 @@ pub fn run(opts: &Opts) -> Run {
             trunc_skip.extend_from_slice(&0x184D2A50u32.to_le_bytes());
             trunc_skip.extend_from_slice(&1000u32.to_le_bytes());
             trunc_skip.extend_from_slice(&[0; 10]);
+            // magic numbers just OUTSIDE the skippable range 0x184D2A50..=0x184D2A5F, followed by a well-formed length + payload
+            for magic in [0x184D2A60u32, 0x184D2A4F, 0x184D2B50, 0x194D2A50] {
+                let mut gi = input.clone();
+                gi.extend_from_slice(&magic.to_le_bytes());
+                gi.extend_from_slice(&5u32.to_le_bytes());
+                gi.extend_from_slice(&[1, 2, 3, 4, 5]);
+                p.must_fail = Some(format!("valid frames followed by a frame with magic number {:#x} (not a skippable frame)", magic));
+                p.decode_all(&gi, expect.len() + 10, None);
+            }
             p.must_fail = Some("a frame followed by a truncated skippable frame".into());
             p.decode_all(&trunc_skip, c.original.len() + 10, None);
             // the Vec front end: spare capacity exact / too small / with existing content
